@@ -5,6 +5,7 @@ import GettsimVerif.Core.VecDtype
 import GettsimVerif.Core.Process
 import GettsimVerif.Core.Typing
 import GettsimVerif.Core.Sym
+import GettsimVerif.Core.Sign
 /- Dispatch of the line protocol to the executable models. -/
 open Lean GV
 
@@ -330,8 +331,43 @@ def opChainRun (j : Json) : Except String Json := do
       | none => Json.null).toArray
   pure (Json.arr rows.toArray)
 
+/-! ### sign analysis over a dependency graph -/
+
+def jAbs : String → Except String Sign.Abs
+  | "nonneg" => pure .nonneg | "pos" => pure .pos | "zero" => pure .zero | "bool" => pure .bool
+  | "pnn" => pure .pnn | "any" => pure .any
+  | s => throw s!"bad abstract value {s}"
+
+def absStr : Sign.Abs → String
+  | .nonneg => "nonneg" | .pos => "pos" | .zero => "zero" | .bool => "bool" | .pnn => "pnn" | .any => "any"
+
+def jGNode (j : Json) : Except String Sign.GNode := do
+  let name ← str j "name"
+  let k ← field j "kind"
+  let kind : Sign.NodeKind ← match ← str k "k" with
+    | "rule" => do pure (.rule (← jFun (← field k "fn")) (← strs k "argNames"))
+    | "input" => do pure (.input (← jAbs (← str k "a")))
+    | "const" => do pure (.input (Sign.absConst (← jVal (← field k "v"))))   -- parameter tree / constant
+    | "sumAgg" => do pure (.sumAgg (← str k "src"))
+    | "countAgg" => pure .countAgg
+    | "maxAgg" => do pure (.maxAgg (← str k "src"))
+    | "minAgg" => do pure (.minAgg (← str k "src"))
+    | "anyAgg" => do pure (.anyAgg (← str k "src"))
+    | "timeconv" => do pure (.timeconv (← str k "src"))
+    | _ => pure .opaque
+  pure { name := name, kind := kind }
+
+/-- {"nodes": [GNode]} (dependencies first) → sign table + certified (node ≤ argument node) facts -/
+def opSignTable (j : Json) : Except String Json := do
+  let nodes ← (← jArr (← field j "nodes")).mapM jGNode
+  let tbl := Sign.signTable nodes
+  let les := Sign.leFacts nodes
+  pure (Json.mkObj [("ok", .arr (tbl.map fun (n, a) => Json.arr #[.str n, .str (absStr a)]).toArray),
+                    ("le", .arr (les.map fun (a, b) => Json.arr #[.str a, .str b]).toArray)])
+
 def dispatch (j : Json) : Except String Json := do
   let op ← str j "op"
+  if op = "sign_table" then return ← opSignTable j
   if op = "sym" then return ← opSym j
   if op = "chain_run" then return ← opChainRun j
   if op.startsWith "typing_" then return ← opTyping op j
